@@ -130,8 +130,26 @@ fn liveness() -> BoxedStrategy<ApiCase> {
         .boxed()
 }
 
+/// well-formed MIDI traffic (the structured generator of the MIDI checks: chords up to 32 keys, repeated strikes, bursts,
+/// long SysEx ...) fed through the byte API in chunks, with getters and edge polls in between
+fn midi_structured_calls() -> BoxedStrategy<ApiCase> {
+    (crate::p_midi::stream_case_structured(), 1usize..24, any::<u8>())
+        .prop_map(|(c, chunk, p)| {
+            let mut calls = vec![MidiCall::Priority(p), MidiCall::Retrigger(p % 2 == 0)];
+            for (i, ch) in c.bytes.chunks(chunk).enumerate() {
+                calls.push(MidiCall::Bytes(ch.to_vec()));
+                if i % 5 == 4 {
+                    calls.push(MidiCall::Getters);
+                    calls.push(MidiCall::Edges);
+                }
+            }
+            ApiCase::Midi { channel: c.channel, calls }
+        })
+        .boxed()
+}
+
 pub fn api_case() -> BoxedStrategy<ApiCase> {
-    prop_oneof![2 => adsr_calls(), 2 => lfo_calls(), 2 => glide_calls(), 2 => quant_calls(), 1 => ribbon_calls(), 2 => midi_calls(), 3 => liveness()].boxed()
+    prop_oneof![2 => adsr_calls(), 2 => lfo_calls(), 2 => glide_calls(), 2 => quant_calls(), 1 => ribbon_calls(), 2 => midi_calls(), 2 => midi_structured_calls(), 3 => liveness()].boxed()
 }
 
 pub fn replay(case: &Value) -> Result<(), Failure> {
